@@ -67,7 +67,7 @@ def manifest_text(cfg, kind):
     t = []
     t.append('[package]\nname = "bsv"\nversion = "0.0.0"\nedition = "2021"\n')
     t.append('[lib]\npath = "%s/harness/src/lib.rs"\n' % VERIF)
-    if kind == "native":
+    if kind in ("native", "nativeflat"):
         t.append('[[bin]]\nname = "replay"\npath = "%s/harness/replay/main.rs"\n' % VERIF)
         t.append('[[bin]]\nname = "c14dump"\npath = "%s/harness/replay/c14dump.rs"\n' % VERIF)
     t.append('[dependencies]')
@@ -79,6 +79,10 @@ def manifest_text(cfg, kind):
     t.append('all = [%s]\n' % ", ".join('"%s"' % f for f in ALL_FEATURES))
     t.append('[workspace]\n')
     t.append('[lints.rust]\nunexpected_cfgs = { level = "allow" }\n')
+    if kind == "nativeflat":
+        t.append('[patch.crates-io]\nbitvec = { path = "%s/vendor/bitvec-1.1.1-flatspan" }\n' % VERIF)
+    if kind in ("native", "nativeflat") and False:
+        pass
     if kind == "kani":
         t.append('[patch.crates-io]\nbitvec = { path = "%s/vendor/bitvec-1.1.1-flatspan" }\n' % VERIF)
         for d in DEP_NOASSERT:
